@@ -56,7 +56,8 @@ AnnotInst ==
         Edit("set", 0, 0, "count", "7"), Edit("set", 0, 0, "sid", "sequence.Id()")}
   \cup {Edit("cut", 2, 8, "", ""), Edit("cut", 3, -2, "", ""), Edit("cut", 1, 10, "", ""),
         Edit("cut", 5, 30, "", ""), Edit("cut", -4, -1, "", ""), Edit("cut", 11, 12, "", ""),
-        Edit("cut", 10, 10, "", ""), Edit("cut", -30, 9, "", "")}
+        Edit("cut", 10, 10, "", ""), Edit("cut", -30, 9, "", ""),
+        Edit("cut", 16, 20, "", "")}       \* only the 8th record is long enough: the first batches are emptied
 
 DistOpts ==
   LET D(cc, d, na, n, h) == [c |-> cc, d |-> d, na |-> na, n |-> n, h |-> h, pat |-> <<"out_", ".fasta">>]
